@@ -170,3 +170,13 @@ Theorem C01_ext_forward_compat_example :
      ext_oer_dec (truncate_ty 1 wit_seq2) bs = Some (truncate_val 1 wit_val2, [])).
 Proof. exact ext_forward_compat_example. Qed.
 Print Assumptions C01_ext_forward_compat_example.
+
+(* the OER preamble of a SEQUENCE with nine OPTIONAL root members has two octets; the extension bit is the first bit
+   of the first (C02_ext_oer_preamble_format), the value with an addition comes back (SEQUENCE_decode_oer used to
+   look for the bit in the second octet: finding C01-ext-oer-preamble-over-8-optionals, fixed) *)
+Theorem C01_ext_oer_preamble9_example :
+  wf_ety_oer wit_seq_p9 = true /\ wt_ety_oer wit_seq_p9 wit_val_p9 /\
+  ext_oer wit_seq_p9 wit_val_p9 = Some [128; 0; 255; 2; 7; 128; 1; 255] /\
+  ext_oer_dec wit_seq_p9 [128; 0; 255; 2; 7; 128; 1; 255] = Some (wit_val_p9, []).
+Proof. exact ext_oer_preamble9_example. Qed.
+Print Assumptions C01_ext_oer_preamble9_example.
